@@ -48,6 +48,7 @@ def workloads(tier):
     w.append(("canonical-composite", {"driver": "Canonical", "T": 900.0, "cycles": 2, "atoms": mols, "calc": {"kind": "soft"}, "table": [{"name": "rot", "move": {"t": "D", "op": {"t": "Rotation"}}}, {"name": "dd", "move": {"t": "*", "part": D("Box"), "n": 2}, "probability": 2.0, "criteria": "canonical"}, {"name": "mix", "move": {"t": "+", "parts": [D("Sphere"), D("Ball")]}, "interval": 2, "criteria": "canonical"}]}))
     w.append(("canonical-forced4", {"driver": "Canonical", "T": 700.0, "cycles": 6, "atoms": gas, "calc": {"kind": "soft"}, "table": [{"name": "alpha", "move": D(), "min": 1}, {"name": "beta", "move": D("Box"), "min": 1}, {"name": "gamma", "move": D("Sphere"), "min": 2}, {"name": "delta", "move": {"t": "D", "op": {"t": "Translation"}}, "min": 1}, {"name": "eps", "move": D()}]}))
     w.append(("hamiltonian", {"driver": "HamiltonianCanonical", "T": 500.0, "cycles": 1, "atoms": {"kind": "gas", "n": 3, "edge": 6.0, "pbc": False, "seed": 5, "extras": ["masses"]}, "calc": {"kind": "harmonic", "k": 1.5, "q": 0.5}, "table": [{"name": "h", "move": {"t": "H", "dt": 2.0, "steps": 6}}]}))
+    w.append(("hamiltonian-forced-refresh", {"driver": "HamiltonianCanonical", "T": 700.0, "cycles": 2, "atoms": {"kind": "gas", "n": 4, "edge": 6.0, "pbc": False, "seed": 9, "extras": ["masses"]}, "calc": {"kind": "harmonic", "k": 1.0, "q": 0.3}, "table": [{"name": "hf", "move": {"t": "H", "dt": 1.5, "steps": 4, "forced": True}}, {"name": "h", "move": {"t": "H", "dt": 2.0, "steps": 3}}]}))
     w.append(("isobaric", {"driver": "Isobaric", "T": 800.0, "P": 0.01, "cycles": 3, "atoms": {**gas, "triclinic": True}, "calc": {"kind": "soft"}, "table": [{"name": "c", "move": {"t": "C", "op": {"t": "Aniso", "mv": 0.05}}, "min": 1}, {"name": "d", "move": D(), "min": 1}]}))
     w.append(("isotension", {"driver": "Isotension", "T": 800.0, "P": 0.01, "S": [[0.01, 0.002, 0], [0.002, 0.0, 0], [0, 0, -0.01]], "cycles": 3, "atoms": gas, "calc": {"kind": "soft"}, "table": [{"name": "c", "move": {"t": "C", "op": {"t": "Shape", "mv": 0.05}, "scale": False}}, {"name": "i", "move": {"t": "C", "op": {"t": "Iso", "mv": 0.05}}}, {"name": "d", "move": D("Box")}]}))
     w.append(("grand-atomic", {"driver": "GrandCanonical", "T": 1500.0, "mu": -0.05, "cycles": 3, "species": 1, "atoms": gas, "calc": {"kind": "soft"}, "table": [{"name": "x", "move": {"t": "E"}, "min": 2}, {"name": "d", "move": D(), "interval": 3}]}))
